@@ -780,7 +780,7 @@ def _run_rowindep(case):
       lfinite = lfinite and bool(np.all(np.isfinite(a))) and bool(np.all(np.isfinite(b2)))
       if lfinite:
         lworst = max(lworst, abs(float(a[0]) - float(tl_full[i])), abs(float(b2[1]) - float(tl_full[i])))
-    if case['model'] != 'emnist_conv' and lfinite:     # no dropout: the training forward pass is deterministic
+    if not case['model'].startswith('emnist_conv') and lfinite:     # no dropout: the training forward pass is deterministic
       key = jax.random.PRNGKey(1)
       tf_full = np.asarray(model.train_loss(batch, model.apply_for_train(params, batch, key)), np.float64).reshape(-1)
       for i in range(B):
